@@ -155,7 +155,7 @@ def make_history(rng, tier="quick"):
     else:
         n = rng.randint(16, 47)
     # swarm: per-history class weights
-    classes = ["valid", "warning", "error", "critical", "crash", "io", "handler", "epipe", "recursion", "lib-error"]
+    classes = ["valid", "warning", "error", "critical", "crash", "io", "handler", "epipe", "recursion", "lib-error", "cli-misc"]
     weights = [rng.choice([0, 1, 1, 2, 4]) for _ in classes]
     if sum(weights) == 0:
         weights[0] = 1
@@ -171,6 +171,19 @@ def make_history(rng, tier="quick"):
             op = text_op(rng, "nop\n" + text + "\nhalt\n")
         elif cls == "crash":
             op = text_op(rng, rng.choice(CRASH_CANDIDATES))
+        elif cls == "cli-misc":
+            # runs that end inside argument handling: --version, an unknown option, an unsupported charset,
+            # a missing input file
+            op = make_cli_op(rng, "valid")
+            k2 = rng.random()
+            if k2 < 0.25:
+                op["argv"] = ["--version"]
+            elif k2 < 0.5:
+                op["argv"] = list(op["argv"]) + ["--no-such-option"]
+            elif k2 < 0.75:
+                op["argv"] = list(op["argv"]) + ["--charset", "no-such-charset"]
+            else:
+                op["argv"] = ["no_such_input_file.mac"] + list(op["argv"])
         elif cls == "io":
             op = make_cli_op(rng, "valid")
             op["pending_faults"] = rng.choice([1, 1, 2])
